@@ -124,6 +124,9 @@ var sharedRules = map[string][]struct{ as, from, rule, why string }{
 	"C17": {
 		{"C17-S1", "C13", "C13-R3", "the will is published under the topic captured inside the session's mount point"},
 	},
+	"C20": {
+		{"C20-S1", "C06", "C06-R2c", "an identifier released while its delivery is still in flight is handed out a second time"},
+	},
 	"C18": {
 		{"C18-S1", "C20", "C20-R1", "a field cleared by a concurrent teardown is dereferenced by the writer, which nothing recovers"},
 	},
